@@ -81,7 +81,7 @@ FLOORS = {
               "popA.schedules": 120, "popB.schedules": 120, "storage.ram.schedules": 80,
               "storage.file-mmap.schedules": 80, "storage.file-nommap.schedules": 80, "tx.kind.optimize": 90,
               "tx.kind.default": 180, "tx.kind.clear": 90, "tx.kind.delete-only": 90, "open.paused_inside": 600,
-              "reader.open_retries": 100, "commits.published": 800, "proc.histories": 5, "proc.held_evals": 120,
+              "reader.open_retries": 20, "open.via_new_index_object": 150, "commits.published": 800, "proc.histories": 5, "proc.held_evals": 120,
               "proc.held_across_commit": 20, "proc.final_checks": 5},
     "thorough": {"schedules": 1500, "sched.steps": 4000000, "interleavings.distinct": 1200, "reader.iterations": 10000,
                  "held.iterations_with_commit": 2000, "held.commits_during_hold": 2500,
@@ -598,7 +598,13 @@ def open_searcher(env, rng, info, refresh_from=None):
         info["inject"] = inj
     try:
         if refresh_from is None:
-            sr = ix.searcher()
+            if rng.random() < 0.3:
+                # a fresh Index object (what index.open_dir() does): its constructor reads the TOC, too
+                info["via"] = "storage.open_index()"
+                ctx.count("open.via_new_index_object")
+                sr = env.storage.open_index().searcher()
+            else:
+                sr = ix.searcher()
         else:
             sr = refresh_from.refresh()
     except Exception as e:  # noqa
@@ -884,6 +890,7 @@ def run_thread_case(ctx, idx, rng):
         H = History(s, tap, g0, model0)
         env = Env()
         env.ctx, env.H, env.sched, env.ix, env.tap, env.wb = ctx, H, s, ix, tap, wb
+        env.storage = st
         env.layout, env.compound_for, env.docgen = layout, compound_for, docgen
         env.ntx, env.nwriters, env.writers_done, env.stop = ntx, nwriters, 0, False
         env.max_iters = ctx.pick(25, 40)
@@ -1152,6 +1159,9 @@ def _proc_known(ctx, layout, w, what, fp, exp, errs, reader, pev):
     evidence = sorted(set(f for (n, f) in pev["touched"] if n > pev["n0"] and SEGRE.match(f).group(1) in loose
                           and not os.path.exists(os.path.join(pev["dir"], f))))
     bad = [p for p in differing_parts(cmpfp, dict((p, exp[p]) for p in exp if p in cmpfp or p not in errs)) if p not in errs]
+    if "keys" in errs:
+        # every other part needs the docnum -> key mapping (stored fields): it was not evaluated, not wrong
+        bad = [p for p in bad if p == "doc_count"]
     lazy_only = all(p in COLUMN_BACKED for p in bad + sorted(errs))
     w = dict(w)
     w.update({"what": what, "parts_differing": bad, "parts_raising": dict((p, repr(e)[:200]) for p, e in errs.items())})
